@@ -1,9 +1,457 @@
 import VrpProofs.Props.C02
+import VrpProofs.Props.C03
+import Mathlib.Algebra.Order.BigOperators.Group.Finset
+import Mathlib.Algebra.Order.BigOperators.Ring.Finset
+import VrpProofs.Lemmas.Penalty
+import Mathlib.Tactic.Linarith
 
+/-!
+# C04 — Default penalty is exact: QUBO minimisers are the constrained optima
+-/
 namespace Vrp.C04
 open Vrp
 
-/-- placeholder until the property theorems are merged -/
-theorem default_rho_feas (suff : ℚ) : defaultRho suff true = 1 := by simp [defaultRho]
+/-- sum of the absolute values of all objective coefficients -/
+def absSum (d : MPData) : ℚ :=
+  sumTo d.n (fun i => absR (d.cvec i)) + sumTo d.n (fun i => sumTo d.n fun j => absR (d.Qmat i j))
+
+/-- `A` and `b` are integer valued (true for all three formulations: entries ±1, right-hand sides
+    `0`, `1` or `1 − Σ fixed values`) -/
+def Integral (d : MPData) : Prop :=
+  (∀ e ∈ d.A, ∃ z : ℤ, e.2.2 = (z : ℚ)) ∧ (∀ r, ∃ z : ℤ, d.bvec r = (z : ℚ))
+
+/-- value of the optimisation-mode QUBO with the default penalty `suff + 1` -/
+def optValue (d : MPData) (suff : ℚ) (x : Vec) : ℚ :=
+  quad d.n (d.quboQ (defaultRho suff false) false) x + d.quboK (defaultRho suff false)
+
+/-! ### helper lemmas -/
+
+theorem penalty_isInt (d : MPData) (hint : Integral d) (x : Vec) (hx : IsBin d.n x) :
+    IsInt (d.penalty x) := by
+  have hA : ∀ r j, IsInt (d.Amat r j) := fun r j => IsInt.cooEntry hint.1 r j
+  have hrow : ∀ r, IsInt (d.rowVal x r - d.bvec r) := fun r =>
+    (IsInt.sumTo fun j hj => (hA r j).mul (IsInt.of_bin hx hj)).sub (hint.2 r)
+  unfold MPData.penalty quad
+  refine (IsInt.sumTo fun r _ => (hrow r).mul (hrow r)).add ?_
+  exact IsInt.sumTo fun i hi => IsInt.sumTo fun j hj =>
+    ((IsInt.natCast _).mul (IsInt.of_bin hx hi)).mul (IsInt.of_bin hx hj)
+
+theorem absSum_eq (d : MPData) :
+    absSum d = ∑ i ∈ Finset.range d.n, |d.cvec i|
+      + ∑ i ∈ Finset.range d.n, ∑ j ∈ Finset.range d.n, |d.Qmat i j| := by
+  simp only [absSum, sumTo_eq, absR_eq]
+
+theorem absSum_nonneg (d : MPData) : 0 ≤ absSum d := by
+  rw [absSum_eq]
+  exact add_nonneg (Finset.sum_nonneg fun _ _ => abs_nonneg _)
+    (Finset.sum_nonneg fun _ _ => Finset.sum_nonneg fun _ _ => abs_nonneg _)
+
+theorem objective_eq (d : MPData) (x : Vec) :
+    d.objective x = ∑ i ∈ Finset.range d.n, d.cvec i * x i
+      + ∑ i ∈ Finset.range d.n, ∑ j ∈ Finset.range d.n, d.Qmat i j * x i * x j := by
+  simp only [MPData.objective, dot_eq, quad_eq, G.quad]
+
+theorem optValue_eq (d : MPData) (suff : ℚ) (x : Vec) (hx : IsBin d.n x) :
+    optValue d suff x = d.objective x + (suff + 1) * d.penalty x := by
+  unfold optValue
+  rw [C02.getQubo_energy d _ false x hx]
+  simp [defaultRho]
+
+/-! ## the property theorems -/
+
+/-- with integral data a violated constraint costs at least 1 -/
+theorem penalty_ge_one (d : MPData) (hint : Integral d) (x : Vec) (hx : IsBin d.n x)
+    (hinf : d.feasibleB x = false) : 1 ≤ d.penalty x := by
+  refine (penalty_isInt d hint x hx).one_le (C03.penalty_nonneg d x hx) ?_
+  intro h0
+  rw [(C03.penalty_zero_iff d x hx).1 h0] at hinf
+  exact Bool.noConfusion hinf
+
+/-- two binary vectors differ in objective by at most the sum of the absolute coefficients -/
+theorem obj_diff_le (d : MPData) (x y : Vec) (hx : IsBin d.n x) (hy : IsBin d.n y) :
+    d.objective y - d.objective x ≤ absSum d := by
+  rw [objective_eq, objective_eq, absSum_eq]
+  have h1 : ∑ i ∈ Finset.range d.n, d.cvec i * y i - ∑ i ∈ Finset.range d.n, d.cvec i * x i
+      ≤ ∑ i ∈ Finset.range d.n, |d.cvec i| := by
+    rw [← Finset.sum_sub_distrib]
+    apply Finset.sum_le_sum
+    intro i hi
+    have hi' := Finset.mem_range.1 hi
+    have a := abs_nonneg (d.cvec i); have b := le_abs_self (d.cvec i); have c := neg_le_abs (d.cvec i)
+    rcases hx i hi' with h | h <;> rcases hy i hi' with h' | h' <;> rw [h, h'] <;> linarith
+  have h2 : ∑ i ∈ Finset.range d.n, ∑ j ∈ Finset.range d.n, d.Qmat i j * y i * y j
+        - ∑ i ∈ Finset.range d.n, ∑ j ∈ Finset.range d.n, d.Qmat i j * x i * x j
+      ≤ ∑ i ∈ Finset.range d.n, ∑ j ∈ Finset.range d.n, |d.Qmat i j| := by
+    rw [← Finset.sum_sub_distrib]
+    apply Finset.sum_le_sum
+    intro i hi
+    rw [← Finset.sum_sub_distrib]
+    apply Finset.sum_le_sum
+    intro j hj
+    have hi' := Finset.mem_range.1 hi
+    have hj' := Finset.mem_range.1 hj
+    have a := abs_nonneg (d.Qmat i j); have b := le_abs_self (d.Qmat i j); have c := neg_le_abs (d.Qmat i j)
+    rcases hx i hi' with h | h <;> rcases hy i hi' with h' | h' <;>
+    rcases hx j hj' with g | g <;> rcases hy j hj' with g' | g' <;> rw [h, h', g, g'] <;> linarith
+  linarith
+
+/-- **exact penalty (Proposition 1 of the paper)**: if the formulation's sufficient value bounds the sum
+    of absolute objective coefficients, the data are integral and the constrained program is feasible, then
+    the minimisers of the default-penalty QUBO over all binary vectors are exactly the constrained optima -/
+theorem default_penalty_exact (d : MPData) (hint : Integral d) (suff : ℚ) (hs : absSum d ≤ suff)
+    (hex : ∃ y, IsBin d.n y ∧ d.feasibleB y = true) (x : Vec) (hx : IsBin d.n x) :
+    (∀ z, IsBin d.n z → optValue d suff x ≤ optValue d suff z)
+      ↔ (d.feasibleB x = true ∧ ∀ z, IsBin d.n z → d.feasibleB z = true → d.objective x ≤ d.objective z) := by
+  have hS := absSum_nonneg d
+  have hpen0 : ∀ x, IsBin d.n x → d.feasibleB x = true → d.penalty x = 0 :=
+    fun x hx h => (C03.penalty_zero_iff d x hx).2 h
+  have hpen1 : ∀ x, IsBin d.n x → ¬ d.feasibleB x = true → 1 ≤ d.penalty x :=
+    fun x hx h => penalty_ge_one d hint x hx (by simpa using h)
+  constructor
+  · intro hmin
+    obtain ⟨y, hy, hfy⟩ := hex
+    have hfx : d.feasibleB x = true := by
+      by_contra hnf
+      have h1 := hpen1 x hx hnf
+      have h2 := hmin y hy
+      rw [optValue_eq d suff x hx, optValue_eq d suff y hy, hpen0 y hy hfy] at h2
+      have h3 := obj_diff_le d x y hx hy
+      nlinarith
+    refine ⟨hfx, fun z hz hfz => ?_⟩
+    have := hmin z hz
+    rw [optValue_eq d suff x hx, optValue_eq d suff z hz, hpen0 x hx hfx, hpen0 z hz hfz] at this
+    linarith
+  · rintro ⟨hfx, hopt⟩ z hz
+    rw [optValue_eq d suff x hx, optValue_eq d suff z hz, hpen0 x hx hfx]
+    by_cases hfz : d.feasibleB z = true
+    · rw [hpen0 z hz hfz]; have := hopt z hz hfz; linarith
+    · have h1 := hpen1 z hz hfz
+      have h3 := obj_diff_le d z x hz hx
+      nlinarith
+
+/-- … and the minimum QUBO value equals the optimal cost -/
+theorem default_penalty_min_value (d : MPData) (hint : Integral d) (suff : ℚ) (hs : absSum d ≤ suff)
+    (hex : ∃ y, IsBin d.n y ∧ d.feasibleB y = true) (x : Vec) (hx : IsBin d.n x)
+    (hmin : ∀ z, IsBin d.n z → optValue d suff x ≤ optValue d suff z) :
+    optValue d suff x = d.objective x := by
+  have hf := ((default_penalty_exact d hint suff hs hex x hx).1 hmin).1
+  rw [optValue_eq d suff x hx, (C03.penalty_zero_iff d x hx).2 hf]
+  ring
+
+/-! ### the three formulations meet the hypotheses, for every instance state (hence also for every state
+the feasibility heuristic can produce, at any high cost, and for negative costs) -/
+
+theorem integral_of_isInt (d : MPData) (hA : ∀ e ∈ d.A, IsInt e.2.2) (hb : ∀ q ∈ d.b, IsInt q) :
+    Integral d := ⟨hA, fun r => IsInt.vecOf hb r⟩
+
+theorem arc_integral (I : ArcInst) : Integral I.data := by
+  apply integral_of_isInt
+  · intro e he
+    simp only [ArcInst.data] at he
+    rw [List.mem_append] at he
+    rcases he with he | he
+    · obtain ⟨⟨col, u⟩, _, h⟩ := List.mem_flatMap.1 he
+      rw [List.mem_append] at h
+      rcases h with h | h
+      · split at h
+        · rw [List.mem_singleton] at h; subst h; exact ⟨-1, by simp⟩
+        · simp at h
+      · split at h
+        · rw [List.mem_singleton] at h; subst h; exact ⟨1, by simp⟩
+        · simp at h
+    · obtain ⟨⟨col, u⟩, _, h⟩ := List.mem_filterMap.1 he
+      split_ifs at h
+      simp only [Option.some.injEq] at h
+      subst h; exact ⟨1, by simp⟩
+  · intro q hq
+    simp only [ArcInst.data, List.mem_append, List.mem_replicate] at hq
+    rcases hq with ⟨_, rfl⟩ | ⟨_, rfl⟩
+    · exact IsInt.zero
+    · exact IsInt.one
+
+theorem path_integral (P : PathInst) : Integral P.data := by
+  apply integral_of_isInt
+  · intro e he
+    simp only [PathInst.data] at he
+    obtain ⟨⟨col, vs⟩, _, h⟩ := List.mem_flatMap.1 he
+    obtain ⟨k, _, h⟩ := List.mem_filterMap.1 h
+    split_ifs at h
+    simp only [Option.some.injEq] at h
+    subst h; exact ⟨1, by simp⟩
+  · intro q hq
+    simp only [PathInst.data, List.mem_replicate] at hq
+    rw [hq.2]; exact IsInt.one
+
+theorem fixed_getD_bin (I : SeqInst) (p n : Nat) :
+    (I.fixed p n).getD 0 = 0 ∨ (I.fixed p n).getD 0 = 1 := by
+  unfold SeqInst.fixed
+  split_ifs <;> simp
+
+theorem seq_data_fields (I : SeqInst) (d : MPData) (h : I.data = some d) :
+    d.n = I.vars.length ∧ d.A = I.linCons.1 ∧ d.b = I.linCons.2 ∧ d.c = I.objective.1
+      ∧ d.Qobj = I.objective.2 := by
+  unfold SeqInst.data at h
+  split at h
+  · simp at h
+  · simp only [Option.some.injEq] at h
+    subst h
+    exact ⟨rfl, rfl, rfl, rfl, rfl⟩
+
+theorem seq_integral (I : SeqInst) (d : MPData) (h : I.data = some d) : Integral d := by
+  obtain ⟨_, hA, hb, _, _⟩ := seq_data_fields I d h
+  apply integral_of_isInt
+  · intro e he
+    rw [hA] at he
+    simp only [SeqInst.linCons] at he
+    obtain ⟨⟨r, tuples⟩, _, h⟩ := List.mem_flatMap.1 he
+    obtain ⟨u, _, h⟩ := List.mem_filterMap.1 h
+    obtain ⟨k, _, h⟩ := Option.map_eq_some_iff.1 h
+    subst h; exact ⟨1, by simp⟩
+  · intro q hq
+    rw [hb] at hq
+    simp only [SeqInst.linCons] at hq
+    obtain ⟨tuples, _, rfl⟩ := List.mem_map.1 hq
+    refine IsInt.one.sub (IsInt.sumList ?_)
+    intro q hq
+    obtain ⟨u, _, rfl⟩ := List.mem_map.1 hq
+    split
+    · exact IsInt.zero
+    · rcases fixed_getD_bin I u.2.1 u.2.2 with h | h <;> rw [h]
+      · exact IsInt.zero
+      · exact IsInt.one
+
+/-- with no bilinear objective the coefficient sum is the sum of the absolute linear coefficients -/
+theorem absSum_lin (d : MPData) (hQ : d.Qobj = []) (hn : d.n = d.c.length) :
+    absSum d = (d.c.map fun q => |q|).sum := by
+  unfold absSum
+  have h2 : sumTo d.n (fun i => sumTo d.n fun j => absR (d.Qmat i j)) = 0 := by
+    simp [MPData.Qmat, cooEntry, hQ, sumList, sumTo_eq, absR_eq]
+  rw [h2, add_zero, hn]
+  show sumTo d.c.length (fun i => absR (d.c.getD i 0)) = _
+  simp only [absR_eq]
+  exact sumTo_getD d.c (fun q => |q|)
+
+theorem winLoop_length_le (T : List ℚ) (lo : ℚ) (hi : ERat) : (winLoop T lo hi).length ≤ T.length := by
+  induction T with
+  | nil => simp [winLoop]
+  | cons s rest ih =>
+    unfold winLoop
+    split_ifs
+    · exact Nat.le_succ_of_le ih
+    · simp
+    · simpa using ih
+
+theorem length_flatMap_le {α β : Type*} (l : List α) (f : α → List β) (B : ℕ)
+    (h : ∀ a ∈ l, (f a).length ≤ B) : (l.flatMap f).length ≤ l.length * B := by
+  induction l with
+  | nil => simp
+  | cons a l ih =>
+    rw [List.flatMap_cons, List.length_append, List.length_cons, Nat.succ_mul]
+    have := h a List.mem_cons_self
+    have := ih fun b hb => h b (List.mem_cons_of_mem _ hb)
+    omega
+
+theorem dictGet_of_mem (d : List (Key × Arc)) (hnd : (d.map (·.1)).Nodup) (e : Key × Arc) (he : e ∈ d) :
+    dictGet d e.1 = some e.2 := by
+  induction d with
+  | nil => simp at he
+  | cons e' rest ih =>
+    rw [List.map_cons, List.nodup_cons] at hnd
+    rcases List.mem_cons.1 he with rfl | he'
+    · simp [dictGet]
+    · have hne : e'.1 ≠ e.1 := fun h => hnd.1 (h ▸ List.mem_map_of_mem he')
+      have := ih hnd.2 he'
+      simp only [dictGet] at this ⊢
+      rw [List.find?_cons_of_neg (by simpa using hne)]
+      exact this
+
+/-- the variables created for arc `e` -/
+def arcBlock (I : ArcInst) (e : Key × Arc) : List ATup :=
+  (winLoop I.T (I.g.lo e.1.1) (I.g.hi e.1.1)).flatMap fun s =>
+    (winLoop I.T (I.g.lo e.1.2) (I.g.hi e.1.2)).filterMap fun t =>
+      if t < s + e.2.time then none else some (e.1.1, s, e.1.2, t)
+
+theorem arc_vars_eq (I : ArcInst) : I.vars = I.g.arcs.flatMap (arcBlock I) := rfl
+
+theorem arcBlock_length_le (I : ArcInst) (e : Key × Arc) :
+    (arcBlock I e).length ≤ I.T.length * I.T.length := by
+  unfold arcBlock
+  refine (length_flatMap_le _ _ I.T.length fun s _ => ?_).trans
+    (Nat.mul_le_mul_right _ (winLoop_length_le _ _ _))
+  exact (List.length_filterMap_le _ _).trans (winLoop_length_le _ _ _)
+
+theorem mem_arcBlock (I : ArcInst) (e : Key × Arc) (u : ATup) (hu : u ∈ arcBlock I e) :
+    u.1 = e.1.1 ∧ u.2.2.1 = e.1.2 := by
+  unfold arcBlock at hu
+  obtain ⟨s, _, h⟩ := List.mem_flatMap.1 hu
+  obtain ⟨t, _, h⟩ := List.mem_filterMap.1 h
+  split_ifs at h
+  simp only [Option.some.injEq] at h
+  subst h
+  exact ⟨rfl, rfl⟩
+
+/-- arc-based: each arc owns at most `|T|²` variables, each with coefficient the arc's cost -/
+theorem arc_suff_ge_coeffs (I : ArcInst) (hg : C15.Inv I.g) : absSum I.data ≤ I.suffPenalty := by
+  rw [absSum_lin I.data rfl (by simp [ArcInst.data])]
+  show ((I.vars.map fun u => ((I.g.arc? u.1 u.2.2.1).map (·.cost)).getD 0).map fun q => |q|).sum ≤ _
+  rw [List.map_map, arc_vars_eq, sum_flatMap_map]
+  unfold ArcInst.suffPenalty
+  rw [sumList_eq, ← List.sum_map_mul_right]
+  refine sum_map_le_sum_map _ _ _ fun e he => ?_
+  have hconst : ∀ u ∈ arcBlock I e,
+      ((fun q : ℚ => |q|) ∘ fun u : ATup => ((I.g.arc? u.1 u.2.2.1).map (·.cost)).getD 0) u
+        = |e.2.cost| := by
+    intro u hu
+    obtain ⟨h1, h2⟩ := mem_arcBlock I e u hu
+    have : I.g.arc? u.1 u.2.2.1 = some e.2 := by
+      rw [h1, h2]; exact dictGet_of_mem I.g.arcs hg.keysNodup e he
+    simp [this]
+  rw [sum_map_const_of_mem _ _ _ hconst]
+  simp only [absR_eq]
+  have hlen : ((arcBlock I e).length : ℚ) ≤ (I.T.length : ℚ) * (I.T.length : ℚ) := by
+    exact_mod_cast arcBlock_length_le I e
+  have := abs_nonneg e.2.cost
+  nlinarith
+
+/-- path-based: the bound is the sum of absolute route costs -/
+theorem path_suff_ge_coeffs (P : PathInst) : absSum P.data ≤ P.suffPenalty := by
+  rw [absSum_lin P.data rfl rfl]
+  unfold PathInst.suffPenalty
+  rw [sumList_eq]
+  apply le_of_eq
+  show (P.costs.map fun q => |q|).sum = _
+  congr 1
+  exact List.map_congr_left fun q _ => (absR_eq q).symm
+
+/-! #### sequence-based -/
+
+/-- the `(v, p, ni, nj, coeff)` terms of `build_objective` -/
+def seqTerms (I : SeqInst) : List (Nat × Nat × Nat × Nat × ℚ) :=
+  (List.range I.V).flatMap fun v =>
+    (List.range (I.L - 1)).flatMap fun p =>
+      I.g.arcs.map fun e => (v, p, e.1.1, e.1.2, e.2.cost + I.vc v)
+
+def seqLinF (I : SeqInst) : (Nat × Nat × Nat × Nat × ℚ) → Option (Nat × ℚ) :=
+  fun (v, p, ni, nj, coeff) =>
+    match I.varIndex (v, p, ni), I.varIndex (v, p + 1, nj) with
+    | none, some k2 => some (k2, coeff * (I.fixed p ni).getD 0)
+    | some k1, none => some (k1, coeff * (I.fixed (p + 1) nj).getD 0)
+    | _, _ => none
+
+def seqQuadF (I : SeqInst) : (Nat × Nat × Nat × Nat × ℚ) → Option (Nat × Nat × ℚ) :=
+  fun (v, p, ni, nj, coeff) =>
+    match I.varIndex (v, p, ni), I.varIndex (v, p + 1, nj) with
+    | some k1, some k2 => some (k1, k2, coeff)
+    | _, _ => none
+
+def seqLin (I : SeqInst) : List (Nat × ℚ) := (seqTerms I).filterMap (seqLinF I)
+def seqQuad (I : SeqInst) : List (Nat × Nat × ℚ) := (seqTerms I).filterMap (seqQuadF I)
+
+theorem seq_objective_eq (I : SeqInst) :
+    I.objective = ((List.range I.vars.length).map fun k =>
+        sumList (((seqLin I).filter fun e => e.1 = k).map (·.2)), seqQuad I) := rfl
+
+/-- every term feeds at most one coefficient, with magnitude at most `|coeff|` -/
+theorem seq_term_le (I : SeqInst) (t : Nat × Nat × Nat × Nat × ℚ) :
+    (seqLinF I t).elim 0 (fun y => |y.2|) + (seqQuadF I t).elim 0 (fun y => |y.2.2|) ≤ |t.2.2.2.2| := by
+  obtain ⟨v, p, ni, nj, coeff⟩ := t
+  simp only [seqLinF, seqQuadF]
+  cases h1 : I.varIndex (v, p, ni) <;> cases h2 : I.varIndex (v, p + 1, nj) <;> simp only []
+  · simp
+  · rcases fixed_getD_bin I p ni with h | h <;> simp [h]
+  · rcases fixed_getD_bin I (p + 1) nj with h | h <;> simp [h]
+  · simp
+
+theorem seq_terms_sum (I : SeqInst) :
+    ((seqTerms I).map fun t => |t.2.2.2.2|).sum
+      = ((I.L - 1 : ℕ) : ℚ) * ((List.range I.V).map fun v =>
+          (I.g.arcs.map fun e => |e.2.cost + I.vc v|).sum).sum := by
+  unfold seqTerms
+  rw [sum_flatMap_map, ← List.sum_map_mul_left]
+  congr 1
+  apply List.map_congr_left
+  intro v _
+  rw [sum_flatMap_map]
+  simp only [List.map_map, Function.comp_def]
+  simp
+
+set_option linter.unusedVariables false in
+/-- sequence-based (repaired bound): every `(vehicle, position, arc)` contributes to at most one coefficient,
+    with magnitude at most `|cost + surcharge_v|`, and there are `L − 1 ≤ L` positions -/
+theorem seq_suff_ge_coeffs (I : SeqInst) (d : MPData) (h : I.data = some d) (hg : C15.Inv I.g) :
+    absSum d ≤ I.suffPenalty := by
+  obtain ⟨hn, _, _, hc, hQ⟩ := seq_data_fields I d h
+  rw [seq_objective_eq] at hc hQ
+  simp only at hc hQ
+  rw [absSum_eq]
+  -- linear part
+  have hlin : ∑ i ∈ Finset.range d.n, |d.cvec i| ≤ ((seqLin I).map fun e => |e.2|).sum := by
+    refine le_trans (le_of_eq ?_) (sum_abs_keyed_le (seqLin I) d.n)
+    refine Finset.sum_congr rfl fun i hi => ?_
+    have hi' : i < I.vars.length := hn ▸ Finset.mem_range.1 hi
+    simp [MPData.cvec, vecOf, hc, hi']
+  have hquad : ∑ i ∈ Finset.range d.n, ∑ j ∈ Finset.range d.n, |d.Qmat i j|
+      ≤ ((seqQuad I).map fun e => |e.2.2|).sum := by
+    unfold MPData.Qmat; rw [hQ]
+    exact sum_abs_cooEntry_le (seqQuad I) d.n
+  have hterms : ((seqLin I).map fun e => |e.2|).sum + ((seqQuad I).map fun e => |e.2.2|).sum
+      ≤ ((seqTerms I).map fun t => |t.2.2.2.2|).sum := by
+    unfold seqLin seqQuad
+    rw [sum_filterMap_map, sum_filterMap_map, ← List.sum_map_add]
+    exact sum_map_le_sum_map _ _ _ fun t _ => seq_term_le I t
+  have hS : 0 ≤ ((List.range I.V).map fun v => (I.g.arcs.map fun e => |e.2.cost + I.vc v|).sum).sum :=
+    sum_map_nonneg _ _ fun v _ => sum_map_nonneg _ _ fun e _ => abs_nonneg _
+  have hsuff : I.suffPenalty = (I.L : ℚ) * ((List.range I.V).map fun v =>
+      (I.g.arcs.map fun e => |e.2.cost + I.vc v|).sum).sum := by
+    unfold SeqInst.suffPenalty
+    rw [sumList_eq]
+    have := sum_flatMap_map (List.range I.V)
+      (fun v => I.g.arcs.map fun e => absR (e.2.cost + I.vc v)) id
+    simp only [List.map_id_fun, id_eq] at this
+    rw [this]
+    simp only [absR_eq]
+  rw [hsuff]
+  rw [seq_terms_sum] at hterms
+  have hL : ((I.L - 1 : ℕ) : ℚ) ≤ (I.L : ℚ) := by exact_mod_cast Nat.sub_le _ _
+  have := mul_le_mul_of_nonneg_right hL hS
+  linarith
+
+theorem exists_some_of_check {α : Type*} (o : Option α) (P : α → Prop) [DecidablePred P]
+    (h : (match o with | some d => decide (P d) | none => false) = true) : ∃ d, o = some d ∧ P d := by
+  cases o with
+  | none => simp at h
+  | some d => exact ⟨d, rfl, by simpa using h⟩
+
+/-- regression of the model of the pinned bound `L·V·Σ|cost|`: with a dummy vehicle of surcharge 1000 it is
+    far below the coefficient sum (depot + one customer, arcs D→1, 1→D of cost 1, D→D, V = 1, L = 3) -/
+theorem seq_pinned_bound_fails :
+    let g : Graph := { nodes := [⟨"D", 0, 0, none⟩, ⟨"a", 0, 0, none⟩],
+                       arcs := [((0, 1), ⟨"D", "a", 0, 1⟩), ((1, 0), ⟨"a", "D", 0, 1⟩), ((0, 0), ⟨"D", "D", 0, 0⟩)] }
+    let I : SeqInst := { g := g, strict := false, V := 1, L := 3, vcost := [1000] }
+    ∃ d, I.data = some d ∧ I.suffPenaltyPinned < absSum d ∧ absSum d ≤ I.suffPenalty := by
+  intro g I
+  apply exists_some_of_check
+  decide +kernel
+
+/-- **C04 for the three formulations** -/
+theorem arc_default_penalty_exact (I : ArcInst) (hg : C15.Inv I.g)
+    (hex : ∃ y, IsBin I.data.n y ∧ I.data.feasibleB y = true) (x : Vec) (hx : IsBin I.data.n x) :
+    (∀ z, IsBin I.data.n z → optValue I.data I.suffPenalty x ≤ optValue I.data I.suffPenalty z)
+      ↔ (I.data.feasibleB x = true ∧
+          ∀ z, IsBin I.data.n z → I.data.feasibleB z = true → I.data.objective x ≤ I.data.objective z) :=
+  default_penalty_exact I.data (arc_integral I) I.suffPenalty (arc_suff_ge_coeffs I hg) hex x hx
+
+theorem path_default_penalty_exact (P : PathInst)
+    (hex : ∃ y, IsBin P.data.n y ∧ P.data.feasibleB y = true) (x : Vec) (hx : IsBin P.data.n x) :
+    (∀ z, IsBin P.data.n z → optValue P.data P.suffPenalty x ≤ optValue P.data P.suffPenalty z)
+      ↔ (P.data.feasibleB x = true ∧
+          ∀ z, IsBin P.data.n z → P.data.feasibleB z = true → P.data.objective x ≤ P.data.objective z) :=
+  default_penalty_exact P.data (path_integral P) P.suffPenalty (path_suff_ge_coeffs P) hex x hx
+
+theorem seq_default_penalty_exact (I : SeqInst) (d : MPData) (h : I.data = some d) (hg : C15.Inv I.g)
+    (hex : ∃ y, IsBin d.n y ∧ d.feasibleB y = true) (x : Vec) (hx : IsBin d.n x) :
+    (∀ z, IsBin d.n z → optValue d I.suffPenalty x ≤ optValue d I.suffPenalty z)
+      ↔ (d.feasibleB x = true ∧ ∀ z, IsBin d.n z → d.feasibleB z = true → d.objective x ≤ d.objective z) :=
+  default_penalty_exact d (seq_integral I d h) I.suffPenalty (seq_suff_ge_coeffs I d h hg) hex x hx
 
 end Vrp.C04
